@@ -191,6 +191,26 @@ def gen_programs(ck, thorough, keys):
             for a in nums:
                 for b in nums:
                     progs.append(([push(ref_num(a)), push(ref_num(b)), c], DEFAULT_ENV, ('arith', c), None))
+    # --- (2b) numeric operands longer than 4 bytes (the limit is on the LENGTH, whatever the value): zero-padded small numbers,
+    # long zero and negative zero, values that need 5 bytes, data; in every operand position of every numeric opcode
+    long_ops = [b'\x05\x00\x00\x00\x00', b'\x00\x00\x00\x00\x00', b'\x00\x00\x00\x00\x80', b'\x01\x00\x00\x00\x80', b'\x00' * 20,
+                b'\xff\xff\xff\x7f\x00', b'\x00\x00\x00\x80\x00', b'\x01\x00\x00\x00\x00\x00']
+    unary = [OPS[x] for x in ('OP_1ADD', 'OP_1SUB', 'OP_NEGATE', 'OP_ABS', 'OP_NOT', 'OP_0NOTEQUAL') if x in OPS]
+    for v in long_ops:
+        for c in unary:
+            progs.append(([push(v), c], DEFAULT_ENV, ('arith-long-unary', c, len(v)), None))
+            progs.append(([push(v), c, OPS['OP_DEPTH']], DEFAULT_ENV, ('arith-long-unary+depth', c, len(v)), None))
+        for c in range(OPS['OP_ADD'], OPS['OP_MAX'] + 1):
+            if c in set(OPS.values()):
+                for small in (b'', b'\x01', b'\x05'):
+                    progs.append(([push(v), push(small), c], DEFAULT_ENV, ('arith-long-first', c, len(v)), None))
+                    progs.append(([push(small), push(v), c], DEFAULT_ENV, ('arith-long-second', c, len(v)), None))
+        for pos in range(3):
+            args = [push(b'\x01'), push(b''), push(b'\x05')]
+            args[pos] = push(v)
+            progs.append((args + [OPS['OP_WITHIN']], DEFAULT_ENV, ('within-long', pos, len(v)), None))
+        for c in (OPS['OP_PICK'], OPS['OP_ROLL']):
+            progs.append(([push(b'\x11'), push(b'\x12'), push(v), c], DEFAULT_ENV, ('pick-roll-long', c, len(v)), None))
     for x in (-1, 0, 1, 2, 3, 5):
         for lo in (0, 1, 2):
             for hi in (1, 2, 3, 5):
